@@ -52,6 +52,8 @@ class FnSpec:
         self.replaces = []  # (regex, k, new)
         self.external_body = False
         self.source = None
+        self.drops = []       # (start_regex, end_regex): statements removed (prologue the verifier cannot reach)
+        self.signature = None  # replacement signature (free variables of the kept body bound as parameters)
 
 
 class Unit:
@@ -143,6 +145,13 @@ def parse_spec(path):
                     u.lemmas[-1][1] = _parse_ob(rest)
             elif kw == "@external_body":
                 flush(); cur_fn.external_body = True
+            elif kw == "@drop":
+                flush(); m2 = re.match(r"/(.*)/\s*\.\.\s*/(.*)/\s*$", rest)
+                if not m2:
+                    raise SpecError("bad @drop line: %s" % raw)
+                cur_fn.drops.append((m2.group(1), m2.group(2)))
+            elif kw == "@signature":
+                flush(); cur_fn.signature = rest
             elif kw == "@header":
                 flush(); sink = ("header", cur_fn)
             elif kw == "@sig":
@@ -275,6 +284,12 @@ def rw_for_ref_pattern(text):
     cnt = 0
     pat1 = re.compile(r"for\s+\(\s*(\w+)\s*,\s*&(\w+)\s*\)\s+in\s+([\w\.\[\]]+?)\.iter\(\)\.enumerate\(\)\s*\{")
     pat2 = re.compile(r"for\s+&(\w+)\s+in\s+(&?[\w\.]+?)(?:\.iter\(\))?\s*\{")
+    pat3 = re.compile(r"for\s+\(\s*(\w+)\s*,\s*(\w+)\s*\)\s+in\s+([\w\.\[\]]+?)\.iter\(\)\.enumerate\(\)\s*\{")
+
+    def r3(m):
+        nonlocal cnt
+        cnt += 1
+        return "for %s in 0..%s.len() { let %s = &%s[%s];" % (m.group(1), m.group(3), m.group(2), m.group(3), m.group(1))
 
     def r1(m):
         nonlocal cnt
@@ -287,6 +302,7 @@ def rw_for_ref_pattern(text):
         e = m.group(2).lstrip("&")
         return "for __i_%s in 0..%s.len() { let %s = %s[__i_%s];" % (m.group(1), e, m.group(1), e, m.group(1))
     text = pat1.sub(r1, text)
+    text = pat3.sub(r3, text)
     text = pat2.sub(r2, text)
     return text, cnt
 
@@ -362,6 +378,28 @@ def extract_fn(src, msk, fs, log):
             text = text[:m.start()] + m.expand(new) + text[m.end():]
             c = 1
         rlog.append("%s: unit rewrite /%s/ => %s x%d" % (fs.name, rgx, new, c))
+    # dropped regions: from the start of the line of the first match to the end of the line of the end match
+    for rs, re_ in fs.drops:
+        m1 = re.search(rs, text)
+        if not m1:
+            raise AnchorLost("@drop start /%s/ no longer matches in %s" % (rs, fs.name))
+        m2 = re.search(re_, text[m1.start():])
+        if not m2:
+            raise AnchorLost("@drop end /%s/ no longer matches in %s" % (re_, fs.name))
+        a = text.rfind("\n", 0, m1.start()) + 1
+        b = text.find("\n", m1.start() + m2.end())
+        b = len(text) if b < 0 else b + 1
+        dropped = text[a:b]
+        text = text[:a] + text[b:]
+        import hashlib
+        rlog.append("%s: DROPPED %d lines /%s/../%s/ (sha1 %s)" % (fs.name, dropped.count("\n"), rs, re_, hashlib.sha1(dropped.encode()).hexdigest()[:10]))
+    if fs.signature:
+        mskS = L.mask(text)
+        fk = re.search(r"\bfn\s+%s\b" % re.escape(name), mskS).start()
+        ls = text.rfind("\n", 0, fk) + 1
+        bo2 = mskS.find("{", fk)
+        rlog.append("%s: signature replaced (free variables of the kept body bound as parameters): %s" % (fs.name, fs.signature))
+        text = text[:ls] + "    " + fs.signature + " " + text[bo2:]
     # signature edits (naming the return value for use in `ensures`)
     for rgx, new in fs.sig:
         m = re.search(rgx, text)
